@@ -36,8 +36,10 @@ CLAIMED["C03"] = ("Partial proof. Proved: generic ECB encrypt/decrypt equals the
  "(unbounded loop invariant), frame = dst[0..len(src)]; generic XTS encrypter/decrypter (sequential and batched paths): memory safety, frame, termination and the data-unit structure "
  "(with a partial last block the block loops leave the last full block for ciphertext stealing; every return has processed the whole unit); the SM4 assembly wrappers for XTS and ECB "
  "(every call satisfies the routine's assumed precondition, incl. the decrypt tail condition); HCTR universal hash feeds exactly the blocks of M||T zero-padded (one known finding, D4), "
- "mul/updateBlock memory safety. The fused assembly is assumed and backed by a bounded differential check (labelled bounded). "
- "Not decided here: byte-level equality of XTS/HCTR/BC/OFBNLF/CTR outputs with their textbook definitions, CBC/CFB/OFB/CTR of crypto/cipher, streaming equivalence, arm64/ppc64 assembly.",
+ "mul/updateBlock memory safety; BC and OFBNLF modes (encrypt and decrypt, separate or in place): the mode's recurrence holds at every iteration with the operands' values at that point "
+ "(BC: C_i = E_K(P_i xor F_i), F_{i+1} = F_i xor C_i; OFBNLF: K_i = E_K(K_{i-1}), C_i = E_{K_i}(P_i)), the chaining state left in the object is the one the next call continues from, memory safety, frame and termination for every length."
+ " The fused assembly is assumed and backed by a bounded differential check (labelled bounded). "
+ "Not decided here: byte-level equality of XTS/HCTR outputs with their textbook definitions, CBC/CFB/OFB/CTR of crypto/cipher and the SM4 assembly fast paths of the modes, arm64/ppc64 assembly.",
  "Trusted: encryptSm4Xts/decryptSm4Xts(GB), encryptSm4Ecb, decryptBlocksChain, mul2/doubleTweaks assembly, cipher.Block/concurrentBlocks interface contracts, alias.InexactOverlap (unsafe), subtle.XORBytes.",
  "DESIGN.md §4 C03")
 
